@@ -131,7 +131,8 @@ def run(ctx):
     tries = 0
     while r < nrs and tries < nrs * 20:
         tries += 1
-        rs = rulesets.gen_ruleset(ctx.rng, with_markov=ctx.rng.random() < 0.7, max_bases=3, max_len=3)
+        want_markov = r % 2 == 1         # every second ruleset keeps its Markov levels (no --skip_brute): limits inside OMEN levels
+        rs = rulesets.gen_ruleset(ctx.rng, with_markov=True if want_markov else ctx.rng.random() < 0.7, max_bases=3, max_len=3)
         rs["omen_prob"] = ctx.rng.choice([[("0", 0.4), ("1", 0.2)], [("1", 0.3)], [("1", 0.25), ("0", 0.25)]])
         if r % 3 == 1:
             # tie-rich family: several equally probable words, several equally probable masks, several equally
@@ -141,11 +142,22 @@ def run(ctx):
             rs["files"]["D2"] = [("12", 0.25), ("99", 0.25), ("07", 0.25), ("00", 0.25)]
             rs["files"]["O1"] = [("!", 0.5), ("#", 0.5)]
             rs["grammar"] = [("A3D2", 0.4), ("D2A3O1", 0.3), ("A3", 0.2)] + [x for x in rs["grammar"] if x[0] == "M"][:1]
+        if r % 3 == 2:
+            # an 8-bit ruleset (iso-8859-1) with letters whose upper case the ruleset's encoding cannot represent (micro sign ->
+            # GREEK CAPITAL MU, y with diaeresis -> U+0178) under masks with U: what is written to standard output does not
+            # depend on the ruleset's encoding, and every guess counted against --limit is a line
+            rs = {"name": rs["name"], "encoding": "iso-8859-1", "uuid": rs["uuid"], "omen": None, "omen_prob": [("1", 0.1)],
+                  "files": {"A2": [("\u00b5m", 0.5), ("\u00ffa", 0.3), ("ab", 0.2)], "C2": [("UL", 0.5), ("LL", 0.3), ("UU", 0.2)],
+                            "D1": [("1", 0.6), ("7", 0.4)], "O1": [("\u00a7", 0.5), ("!", 0.5)]},
+                  "grammar": [("A2D1", 0.5), ("A2", 0.3), ("O1A2", 0.2)], "prince": [("A2", 0.6), ("D1", 0.4)]}
+            dist["latin1_unencodable_upper"] = dist.get("latin1_unencodable_upper", 0) + 1
         if r % 2 == 0:
             rs = rulesets.normalise(rs)     # like a trained ruleset: needed by the sampling modes
         name = "L%d" % r
         rs["name"] = name
         flags = ctx.rng.choice([[], ["--skip_brute"], ["--all_lower"], ["--skip_brute", "--all_lower"]])
+        if want_markov:
+            flags = [f for f in flags if f != "--skip_brute"]
         try:
             g = impl_next.load_grammar(rs, sc, "--skip_brute" in flags, "--all_lower" in flags)
         except Exception:
@@ -188,8 +200,12 @@ def run(ctx):
         # strictly inside groups / Markov levels
         c = 0
         for p, it in zip(per_item, items):
-            if len(p) >= 3 and ctx.rng.random() < 0.5:
+            is_m = it["pt"][0][0][0] == "M"
+            if len(p) >= 3 and ctx.rng.random() < 0.5 or is_m and len(p) >= 2:
                 ns.add(c + ctx.rng.randint(1, len(p) - 1))
+            if is_m and len(p) >= 2:
+                ns.add(c + len(p) - 1)       # the last guess but one of an OMEN level, and its last guess
+                ns.add(c + len(p))
             c += len(p)
         jobs.append((name, flags, None, "true_prob_order"))
         for n in sorted(x for x in ns if x >= 1):
